@@ -81,6 +81,13 @@ def h_ehdr(ctx):
     ctx.check_eq('ehdr/EI_ABIVERSION', idn['EI_ABIVERSION'], cells[8])
     ctx.check('ehdr/EI_CLASS', idn['EI_CLASS'] == ('ELFCLASS32' if cls == 32 else 'ELFCLASS64'))
     ctx.check('ehdr/EI_DATA', idn['EI_DATA'] == ('ELFDATA2LSB' if little else 'ELFDATA2MSB'))
+    # the counts follow the header unless the gABI escape value is used (PN_XNUM = 0xffff for segments; e_shnum = 0 for sections)
+    if ctx.fork(want['e_phnum'] != 0xffff):
+        ctx.check_eq('ehdr/num_segments', elf.num_segments(), want['e_phnum'])
+    if ctx.fork(want['e_shoff'] == 0):
+        ctx.check_eq('ehdr/num_sections/no-table', elf.num_sections(), 0)
+    elif ctx.fork(want['e_shnum'] != 0):
+        ctx.check_eq('ehdr/num_sections', elf.num_sections(), want['e_shnum'])
 
 
 # ------------------------------------------------------------------ H1.2 section / program header layout per machine
